@@ -108,7 +108,10 @@ class GhostWork:
             it = s.iter if isinstance(s, ast.For) else s.test
             nsized = self.iter_is_nsized(it) or (isinstance(s, ast.While) and isinstance(it, ast.Name) and it.id in self.nsized)
             if nsized:
-                first_is_check = bool(s.body) and _is_call_to(s.body[0], self.check)
+                eff = [x for x in s.body if not (isinstance(x, ast.Expr) and (isinstance(x.value, ast.Constant) or (
+                    isinstance(x.value, ast.Call) and isinstance(x.value.func, ast.Attribute) and isinstance(x.value.func.value, ast.Name)
+                    and x.value.func.value.id == "logger")))]
+                first_is_check = bool(eff) and _is_call_to(eff[0], self.check)
                 self.checked_loops.append((s.lineno, first_is_check))
                 body_after = self.block(s.body, 0 if first_is_check else w)
                 if not first_is_check:
@@ -161,6 +164,7 @@ class DeadlineUnit:
                 o.status, o.detail = "failed", detail
                 o.cex = {"args": {"kind": cexkind}} if cexkind else None
                 o.no_input_expected = cexkind is None
+                o.shape_only = cexkind is not None      # structural clause; the virtual-clock replay is the behavioural test
             obs.append(o)
         for qual in ("ctparse._ctparse", "ctparse._regex_stack"):
             f = world.func(qual)
